@@ -51,4 +51,43 @@ let register (reg : string -> (string list -> string) -> unit) =
       let ((r, m), ok) = decompress_usingDict (fast = "1") (part = "1") srcm (zs srcsize) (zs target) (zs cap)
                            (if isp then PPrefix else PExt) dictm (len dict) m0 in
       Printf.sprintf "%s %s %s" (zstr r) (if ok then "ok" else "OOB") (show_bytes (load_list m (z 0) (len fill)))
+    | _ -> "badargs");
+  (* ---- fast compressor ---- *)
+  let show_ares (a : ares) =
+    Printf.sprintf "%s %s %s %s" (zstr a.a_ret) (zstr a.a_consumed) (zstr a.a_hw) (show_bytes a.a_out) in
+  let table_md5 (c : fctx) =
+    let b = Buffer.create 16384 in
+    let tt = zi c.f_tt in
+    if tt = 3 then
+      for h = 0 to 8191 do
+        let v = zi (get c.f_tab (z h)) in
+        Buffer.add_char b (Char.chr (v land 255)); Buffer.add_char b (Char.chr ((v lsr 8) land 255))
+      done
+    else
+      for h = 0 to 4095 do
+        let v = zi (get c.f_tab (z h)) in
+        Buffer.add_char b (Char.chr (v land 255)); Buffer.add_char b (Char.chr ((v lsr 8) land 255));
+        Buffer.add_char b (Char.chr ((v lsr 16) land 255)); Buffer.add_char b (Char.chr ((v lsr 24) land 255))
+      done;
+    Digest.to_hex (Digest.string (Buffer.contents b)) in
+  let show_ctx (c : fctx) = Printf.sprintf "cur=%s tt=%s dictSize=%s tab=%s" (zstr c.f_cur) (zstr c.f_tt) (zstr c.f_dictSize) (table_md5 c) in
+  let cur_ctx = ref ctx_init in
+  (* comp ext|dest <src> <cap|target> <accel> *)
+  reg "comp" (function [variant; src; cap; accel] ->
+      let src = bytes_of_hex src in
+      let srcm = mem_of_list (z 0) src in
+      let a = (match variant with
+        | "ext" -> compress_fast_extState srcm (len src) (zs cap) (zs accel)
+        | "dest" -> compress_destSize srcm (len src) (zs cap)
+        | _ -> failwith "variant") in
+      show_ares a ^ " " ^ show_ctx a.a_ctx
+    | _ -> "badargs");
+  reg "ctxinit" (function _ -> cur_ctx := ctx_init; "ok");
+  (* fr <src> <cap> <accel> : LZ4_compress_fast_extState_fastReset on the session context *)
+  reg "fr" (function [src; cap; accel] ->
+      let src = bytes_of_hex src in
+      let srcm = mem_of_list (z 0) src in
+      let a = compress_fast_extState_fastReset !cur_ctx srcm (len src) (zs cap) (zs accel) in
+      cur_ctx := a.a_ctx;
+      show_ares a ^ " " ^ show_ctx a.a_ctx
     | _ -> "badargs")
